@@ -442,6 +442,9 @@ package derive
 //@ ensures [pkg-plugins] err == nil ==> r.plugins == plugins
 //@ ensures [pkg-generators] err == nil ==> forall i int :: 0 <= i && i < len(plugins) ==> derive.Plugin.Name(plugins[i]) in r.generators && r.generators[derive.Plugin.Name(plugins[i])] != nil
 //@ assert-at-call derive.pkg.Add: forall i int, n string :: 0 <= i && i < len(fileInfos) && n in fileInfos[i].funcNames ==> n in reserved
+// C10/C07: derived.gen.go goes to the directory of the package's first source file, as registered in the file set
+//@ assert-at-call filepath.Abs: [dir-of-the-first-source-file] $arg0 == fileInfos[0].fullpath
+//@ assert-at-call filepath.Dir: [dir-of-the-first-source-file] $arg0 == abs
 // C07: calls are registered in source order, whether or not the old derived.gen.go already defines them
 // (Pos: the position as parsed; Fun is replaced by an identifier without position only after the order is fixed)
 //@ assert-at-call derive.pkg.Add: [registration-in-source-order] forall a int, b int :: 0 <= a && a < b && b < len(calls) ==> ast.CallExpr.Pos(calls[a].Expr) <= ast.CallExpr.Pos(calls[b].Expr)
